@@ -9,8 +9,7 @@ open Ec
 
 /-- The arithmetic sites of the translated code at which a `u16` overflow is possible. -/
 def knownSites : List String :=
-  ["new:mul", "new:add", "skip_ahead_bytes:add", "read_byte:add", "category:mul", "category:add",
-   "size:add", "size:mul"]
+  ["new:mul", "new:add", "skip_ahead_bytes:add", "read_byte:add"]
 
 /-- Panic sites that can fire in a build mode: the overflow sites with overflow checks, none without. -/
 def sites : Mode → List String
@@ -222,56 +221,53 @@ theorem eofToOverrun_tri {α : Type} {K : List String} {hang : Bool} {B : Nat} {
 
 /-! ### category walk -/
 
-/-- What one loop iteration guarantees about its result. -/
-def CatStepPost (m : Mode) (wa : Nat) : CatStep → Prop
+/-- What one loop iteration guarantees about its result: the next word address is a `u16` and at least 2 beyond
+    the current one (checked addition), in every build mode. -/
+def CatStepPost (wa : Nat) : CatStep → Prop
   | .done (some r) => r.WF
   | .done none => True
-  | .next wa' ne' => wa' < 65536 ∧ ne' < 32 ∧ (m = .checked → wa + 2 ≤ wa')
+  | .next wa' ne' => wa' < 65536 ∧ ne' < 32 ∧ wa + 2 ≤ wa'
 
 theorem catStep_tri (m : Mode) (hang : Bool) (cat : Nat) (chunk : List Nat) (wa ne : Nat)
-    (_hne : ne < 32) (hch : 4 ≤ chunk.length) :
-    Tri (sites m) hang 0 (CatStepPost m wa) (catStep m cat chunk wa ne) := by
+    (hch : 4 ≤ chunk.length) :
+    Tri (sites m) hang 0 (CatStepPost wa) (catStep m cat chunk wa ne) := by
   unfold catStep
   by_cases h1 : wa + 2 ≥ 65536
-  · rw [if_pos h1]; exact Tri.ret 0 (show CatStepPost m wa (.done none) from trivial)
+  · rw [if_pos h1]; exact Tri.ret 0 (show CatStepPost wa (.done none) from trivial)
   · rw [if_neg h1, if_neg (by omega : ¬ chunk.length < 4)]
     generalize hdef : (if rd16 (chunk.drop 2) = 0 then ne + 1 else ne) = ne'
-    have hle : ne' ≤ ne + 1 := by rw [← hdef]; split <;> omega
     by_cases h2 : ne' ≥ Gen.Eeprom.EMPTY_CATEGORY_LIMIT
-    · simp only [hdef, if_pos h2]; exact Tri.ret 0 (show CatStepPost m wa (.done none) from trivial)
+    · simp only [hdef, if_pos h2]; exact Tri.ret 0 (show CatStepPost wa (.done none) from trivial)
     · simp only [hdef, if_neg h2]
       have hne' : ne' < 32 := by simp only [Gen.Eeprom.EMPTY_CATEGORY_LIMIT] at h2; omega
-      refine (Tri.bind (mul16_tri m hang "category:mul" (by decide) (wa + 2) 2) (B2 := 0) ?_)
-      intro _ _
       by_cases h3 : catOf (rd16 chunk) = cat
       · rw [if_pos h3]
         refine (Tri.bind (new_tri m hang (wa + 2) _) (B2 := 0) ?_)
         intro r hr
-        exact Tri.ret 0 (show CatStepPost m wa (.done (some r)) from hr.1)
+        exact Tri.ret 0 (show CatStepPost wa (.done (some r)) from hr.1)
       · rw [if_neg h3]
         by_cases h4 : catOf (rd16 chunk) = Gen.Eeprom.CAT_END
-        · rw [if_pos h4]; exact Tri.ret 0 (show CatStepPost m wa (.done none) from trivial)
+        · rw [if_pos h4]; exact Tri.ret 0 (show CatStepPost wa (.done none) from trivial)
         · rw [if_neg h4]
-          refine (Tri.bind (add16_tri m hang "category:add" (by decide) (wa + 2) _) (B2 := 0) ?_)
-          intro wa'' hwa''
-          refine Tri.ret 0 (show CatStepPost m wa (.next wa'' ne') from ⟨hwa''.1, hne', fun hm => ?_⟩)
-          have := hwa''.2 hm
-          omega
+          by_cases h5 : wa + 2 + rd16 (chunk.drop 2) < 65536
+          · rw [if_pos h5]
+            exact Tri.ret 0 (show CatStepPost wa (.next _ ne') from ⟨h5, hne', by omega⟩)
+          · rw [if_neg h5]; exact Tri.fail 0 _ (by decide)
 
-/-- Overflow-checked builds: the word address grows by at least 2 per iteration, so the walk ends after at
-    most `(65536 − wa) / 2 + 1` provider calls — it never runs out of fuel. -/
-theorem catLoop_checked (p : Prov) (hcs : 4 ≤ p.cs) (cat : Nat) :
-    ∀ (fuel wa ne calls : Nat), wa < 65536 → ne < 32 → 65536 - wa < 2 * fuel →
-      Tri knownSites false (calls + (65536 - wa) / 2 + 1) (fun r => ∀ x, r = some x → x.WF)
-        (catLoop .checked p cat fuel wa ne calls) := by
+/-- **The walk terminates in every build mode**: the word address grows by at least 2 per iteration, so the
+    walk ends after at most `(65536 − wa) / 2 + 1` provider calls — it never runs out of fuel. -/
+theorem catLoop_terminates (m : Mode) (p : Prov) (hcs : 4 ≤ p.cs) (cat : Nat) :
+    ∀ (fuel wa ne calls : Nat), wa < 65536 → 65536 - wa < 2 * fuel →
+      Tri (sites m) false (calls + (65536 - wa) / 2 + 1) (fun r => ∀ x, r = some x → x.WF)
+        (catLoop m p cat fuel wa ne calls) := by
   intro fuel
   induction fuel with
-  | zero => intro wa ne calls h1 _ h3; omega
+  | zero => intro wa ne calls h1 h3; omega
   | succ fuel ih =>
-    intro wa ne calls hwa hne hfuel
+    intro wa ne calls hwa hfuel
     unfold catLoop
-    have hst := catStep_tri .checked false cat (chunkAt p wa) wa ne hne (by simp; omega)
-    generalize catStep .checked cat (chunkAt p wa) wa ne = st at hst
+    have hst := catStep_tri m false cat (chunkAt p wa) wa ne (by simp; omega)
+    generalize catStep m cat (chunkAt p wa) wa ne = st at hst
     obtain ⟨o, c⟩ := st
     have hc : c = 0 := by have := hst.cost; simpa using this
     subst hc
@@ -283,9 +279,8 @@ theorem catLoop_checked (p : Prov) (hcs : 4 ≤ p.cs) (cat : Nat) :
         intro x hx; subst hx
         exact hst.post _ rfl
       | next wa' ne' =>
-        have hp : wa' < 65536 ∧ ne' < 32 ∧ (Mode.checked = Mode.checked → wa + 2 ≤ wa') := hst.post _ rfl
-        have hge := hp.2.2 rfl
-        exact (ih wa' ne' (calls + 1) hp.1 hp.2.1 (by omega)).mono (by omega) (fun _ h => h)
+        have hp : wa' < 65536 ∧ ne' < 32 ∧ wa + 2 ≤ wa' := hst.post _ rfl
+        exact (ih wa' ne' (calls + 1) hp.1 (by omega)).mono (by omega) (fun _ h => h)
     | err e =>
       refine Tri.of_err rfl (by simp only; omega) ?_
       intro he; subst he
@@ -296,69 +291,14 @@ theorem catLoop_checked (p : Prov) (hcs : 4 ≤ p.cs) (cat : Nat) :
       · intro w' hw'; cases hw'; exact hst.panics w rfl
       · intro _ h; cases h
 
-/-- Wrapping builds: no iteration can panic; the cost is bounded by the fuel (running out of fuel = the Rust
-    loop does not terminate). -/
-theorem catLoop_wrapping (p : Prov) (hcs : 4 ≤ p.cs) (cat : Nat) :
-    ∀ (fuel wa ne calls : Nat), ne < 32 →
-      Tri [] true (calls + fuel) (fun r => ∀ x, r = some x → x.WF)
-        (catLoop .wrapping p cat fuel wa ne calls) := by
-  intro fuel
-  induction fuel with
-  | zero =>
-    intro wa ne calls _
-    unfold catLoop
-    refine ⟨by simp, ?_, ?_, ?_⟩
-    · intro h; cases h
-    · intro _ h; cases h
-    · intro _ h; cases h
-  | succ fuel ih =>
-    intro wa ne calls hne
-    unfold catLoop
-    have hst := catStep_tri .wrapping true cat (chunkAt p wa) wa ne hne (by simp; omega)
-    generalize catStep .wrapping cat (chunkAt p wa) wa ne = st at hst
-    obtain ⟨o, c⟩ := st
-    have hc : c = 0 := by have := hst.cost; simpa using this
-    subst hc
-    cases o with
-    | ok s =>
-      cases s with
-      | done r =>
-        refine Tri.of_ok rfl (by simp only; omega) ?_
-        intro x hx; subst hx
-        exact hst.post _ rfl
-      | next wa' ne' =>
-        have hp : wa' < 65536 ∧ ne' < 32 ∧ (Mode.wrapping = Mode.checked → wa + 2 ≤ wa') := hst.post _ rfl
-        exact (ih wa' ne' (calls + 1) hp.2.1).mono (by omega) (fun _ h => h)
-    | err e =>
-      refine ⟨by simp only; omega, ?_, ?_, ?_⟩
-      · intro h; cases h
-      · intro _ h; cases h
-      · intro _ h; cases h
-    | panic w =>
-      have := hst.panics w rfl
-      simp [sites] at this
-
-/-- Provider-call bound of one category search. -/
-def catBound : Mode → Nat
-  | .checked => (65536 - Gen.Eeprom.SII_FIRST_CATEGORY_START) / 2 + 1
-  | .wrapping => catFuel
-
-/-- Whether a build mode admits a non-terminating category walk. -/
-def mayHang : Mode → Bool
-  | .checked => false
-  | .wrapping => true
+/-- Provider-call bound of one category search (both build modes). -/
+def catBound : Nat := (65536 - Gen.Eeprom.SII_FIRST_CATEGORY_START) / 2 + 1
 
 theorem category_tri (m : Mode) (p : Prov) (hcs : 4 ≤ p.cs) (cat : Nat) :
-    Tri (sites m) (mayHang m) (catBound m) (fun r => ∀ x, r = some x → x.WF) (category m p cat) := by
+    Tri (sites m) false catBound (fun r => ∀ x, r = some x → x.WF) (category m p cat) := by
   unfold category
-  cases m with
-  | checked =>
-    have := catLoop_checked p hcs cat catFuel Gen.Eeprom.SII_FIRST_CATEGORY_START 0 0 (by decide) (by decide)
-      (by decide)
-    exact this.mono (by simp [catBound]) (fun _ h => h)
-  | wrapping =>
-    have := catLoop_wrapping p hcs cat catFuel Gen.Eeprom.SII_FIRST_CATEGORY_START 0 0 (by decide)
-    exact this.mono (by simp [catBound]) (fun _ h => h)
+  have := catLoop_terminates m p hcs cat catFuel Gen.Eeprom.SII_FIRST_CATEGORY_START 0 0 (by decide) (by decide)
+  exact this.mono (by simp [catBound]) (fun _ h => h)
 
 /-! ### items and collections -/
 
@@ -400,7 +340,7 @@ theorem nextItem_tri {α : Type} {K : List String} (m : Mode) (hang : Bool) (p :
 def CatOK (m : Mode) (p : Prov) (hang : Bool) (CB : Nat) : Prop :=
   ∀ cat, Tri (sites m) hang CB (fun r => ∀ x, r = some x → x.WF) (category m p cat)
 
-theorem catOK_all (m : Mode) (p : Prov) (hcs : 4 ≤ p.cs) : CatOK m p (mayHang m) (catBound m) :=
+theorem catOK_all (m : Mode) (p : Prov) (hcs : 4 ≤ p.cs) : CatOK m p false catBound :=
   fun cat => category_tri m p hcs cat
 
 theorem items_tri (m : Mode) (p : Prov) (_hcs : 4 ≤ p.cs) {hang : Bool} {CB : Nat} (hc : CatOK m p hang CB) (cat : Nat) :
@@ -536,15 +476,13 @@ theorem mailboxConfig_tri (m : Mode) (hang : Bool) (p : Prov) (hcs : 2 ≤ p.cs)
   exact parseMailbox_tri res.1
 
 theorem size_tri (m : Mode) (hang : Bool) (p : Prov) (hcs : 2 ≤ p.cs) :
-    Tri (sites m) hang 3 (fun v => v < 65536) (size m p) := by
+    Tri (sites m) hang 3 (fun _ => True) (size m p) := by
   unfold size
   refine (Tri.bind (startAt_tri m hang _ 2) (B2 := 3) ?_).mono (by omega) (fun _ h => h)
   intro r hr
   refine (Tri.bind (eofToOverrun_tri (readExact_tri m hang p hcs r hr 2)) (B2 := 0) ?_)
   intro res _
-  refine (Tri.bind (add16_tri m hang "size:add" (by decide) _ 1) (B2 := 0) ?_)
-  intro k _
-  exact (mul16_tri m hang "size:mul" (by decide) k 128).mono (Nat.le_refl _) (fun _ h => h.1)
+  exact Tri.ret 0 trivial
 
 theorem general_tri (m : Mode) (p : Prov) (hcs : 4 ≤ p.cs) {hang : Bool} {CB : Nat} (hc : CatOK m p hang CB) (hb : ∀ a, p.rd a < 256) :
     Tri (sites m) hang (CB + 19) (fun g => g.orderIdx < 256 ∧ g.nameIdx < 256) (general m p) := by
